@@ -120,6 +120,25 @@ func runC12(c *Ctx) {
 					}
 				}
 			}
+			// content that happens to equal the signing key's public key is content like any other
+			if i%3 == 1 {
+				switch x := cl.(type) {
+				case *jwt.UserClaims:
+					x.IssuerAccount = s.pub
+				case *jwt.ActivationClaims:
+					x.IssuerAccount = s.pub
+				case *jwt.AuthorizationResponseClaims:
+					x.IssuerAccount = s.pub
+				case *jwt.OperatorClaims:
+					x.SystemAccount = s.pub
+					x.SigningKeys.Add(s.pub)
+				case *jwt.AccountClaims:
+					if x.SigningKeys != nil {
+						x.SigningKeys.Add(s.pub)
+					}
+				}
+				cl.Claims().Name, cl.Claims().Audience = s.pub, s.pub
+			}
 			// every way Encode can fail returns no token: also when everything passes and only the signing step fails
 			if i < 12 {
 				for _, how := range []string{"public-only key", "signer reports an error", "nil key"} {
